@@ -802,10 +802,10 @@ def run(ctx):
     ctx.cov["stats"] = {k: v for k, v in stats.items()}
     cnt = Counter()
     for c, o in pairs:
-        if c["kind"] == "apply" and "packed" in c["kinds"] and cnt["apply"] < 3:
+        if c["kind"] == "apply" and "packed" in c["kinds"] and cnt["apply"] < 3 and "out" in o:
             cnt["apply"] += 1
             ctx.sample(dict(c, impl_out_head=list(map(float, unhx(o["out"])[:6]))))
-        elif c["kind"] == "root" and cnt["root"] < 3:
+        elif c["kind"] == "root" and cnt["root"] < 3 and "c" in o and "e" in o:
             cnt["root"] += 1
             ctx.sample(dict(c, impl_const=kit.hex_f64(o["c"]), impl_inv=list(map(float, unhx(o["e"])))))
 
